@@ -17,6 +17,13 @@ import (
 func main() {
 	// debugging aid: vcheck script <script.json> <out.h5> runs an operation script and prints
 	// per-operation results and the logical dump of the reopened file
+	if len(os.Args) >= 3 && os.Args[1] == "c07synth" {
+		// debugging aid: write every structural input of C07 into a directory
+		for _, l := range props.C07SynthWrite(os.Args[2]) {
+			fmt.Println(l)
+		}
+		return
+	}
 	if len(os.Args) >= 2 && os.Args[1] == "c20first" {
 		// worker of C20: this process's first conversions, made from many goroutines at once
 		for _, l := range props.C20FirstUseLines() {
